@@ -317,13 +317,21 @@ func (g *vgen) fill(v reflect.Value, depth int) {
 		}
 		f := new(big.Float).SetInt64(int64(t.Draw("v-bf", 1<<40)))
 		f.SetMantExp(f, t.Intn("v-bf-exp", 60)-30)
+		if g.o.Specials && t.Chance("v-bf-huge-exp", 1, 6) {
+			// a value a dozen bytes can hold whose decimal form has millions of digits
+			f.SetMantExp(f, []int{3000000, -3000000, 200000000, -200000000}[t.Intn("v-bf-huge", 4)])
+		}
 		v.Set(reflect.ValueOf(f))
 		return
 	case reflect.TypeOf((*apd.Decimal)(nil)):
 		if t.Chance("v-nilptr", 1, 6) {
 			return
 		}
-		v.Set(reflect.ValueOf(apd.New(int64(t.Draw("v-apd", 1<<40)), int32(t.Intn("v-apd-exp", 100))-50)))
+		d := apd.New(int64(t.Draw("v-apd", 1<<40)), int32(t.Intn("v-apd-exp", 100))-50)
+		if g.o.Specials && t.Chance("v-apd-huge-exp", 1, 6) {
+			d.Exponent = []int32{3000000, -3000000, 2147483000, -2147483000}[t.Intn("v-apd-huge", 4)]
+		}
+		v.Set(reflect.ValueOf(d))
 		return
 	case reflect.TypeOf(time.Time{}):
 		v.Set(reflect.ValueOf(time.Date(1900+t.Intn("v-year", 300), time.Month(1+t.Intn("v-month", 12)), 1+t.Intn("v-day", 28),
